@@ -91,6 +91,10 @@ func c10Eval(t tb, c c10Cell) {
 		c10Pipe(t, c.Class, c.YAML, c.Flags)
 		return
 	}
+	if n, ok := strings.CutPrefix(c.Fault, "output-name:"); ok {
+		c10OutName(t, n, c.Flags)
+		return
+	}
 	col := ev.Get()
 	bin, err := sut.BuildBinary(ev.RepoDir(), filepath.Join(ev.ScratchDir(), "bin"), "v"+c10BuildVersion)
 	if err != nil {
@@ -325,6 +329,42 @@ func brief(s sut.FileState) string {
 	return fmt.Sprintf("{exists:%v dir:%v mode:%v size:%d mtime:%s link:%q sha:%s}", s.Exists, s.IsDir, s.Mode, s.Size, s.ModTime.UTC().Format(time.RFC3339), s.Link, sha([]byte(s.Content)))
 }
 
+// c10OutName: the file written is the file named by -o, byte for byte in its name.
+func c10OutName(t tb, name string, f sut.Flags) bool {
+	col := ev.Get()
+	bin, err := sut.BuildBinary(ev.RepoDir(), filepath.Join(ev.ScratchDir(), "bin"), "v"+c10BuildVersion)
+	if err != nil {
+		t.Fatalf("INFRA: %v", err)
+	}
+	dir := scratch("c10out")
+	defer os.RemoveAll(dir)
+	_ = os.WriteFile(filepath.Join(dir, "main.yaml"), []byte(c10Classes[0].yaml), 0o644)
+	out := filepath.Join("o", name)
+	_ = os.MkdirAll(filepath.Join(dir, filepath.Dir(out)), 0o755)
+	before, _ := os.ReadDir(filepath.Join(dir, filepath.Dir(out)))
+	r := bin.Run(dir, nil, 60*time.Second, sut.BuildArgs([]string{"main.yaml"}, out, f)...)
+	after, _ := os.ReadDir(filepath.Join(dir, filepath.Dir(out)))
+	col.Case(ev.HashStr("out-name", name), true)
+	col.Label("output-name-with-white-space")
+	var created []string
+	for _, e := range after {
+		known := false
+		for _, b := range before {
+			known = known || b.Name() == e.Name()
+		}
+		if !known {
+			created = append(created, e.Name())
+		}
+	}
+	b, rerr := os.ReadFile(filepath.Join(dir, out))
+	cell := c10Cell{Class: "valid", YAML: c10Classes[0].yaml, Flags: f, Fault: "output-name:" + name}
+	if r.Exit != 0 || rerr != nil || len(b) == 0 || len(created) != 1 || created[0] != filepath.Base(out) {
+		violation(t, "output-written-under-another-name", fmt.Sprintf("-o %q: exit %d, the named file readable: %v, entries created in its directory: %q", out, r.Exit, rerr == nil, created), cell)
+		return false
+	}
+	return true
+}
+
 // c10Pipe feeds one configuration through a named pipe and compares status and output with the regular-file run.
 func c10Pipe(t tb, class, yaml string, f sut.Flags) bool {
 	col := ev.Get()
@@ -428,6 +468,17 @@ func TestC10(t *testing.T) {
 		}
 		f := sut.Flags{Quiet: i%2 == 1}
 		if !c10Pipe(t, cl.name, cl.yaml, f) {
+			return
+		}
+	}
+
+	// output paths whose names begin or end with white space are names like any other
+	for i, name := range []string{"gen.go ", " gen.go", "gen.go\t", "\u00a0gen.go", "gen.go\n", "sub dir /gen.go", " "} {
+		idx++
+		if !ev.Mine(idx) {
+			continue
+		}
+		if !c10OutName(t, name, sut.Flags{Quiet: i%2 == 1}) {
 			return
 		}
 	}
